@@ -30,6 +30,30 @@ def rebind_shallow(f, **globs):
     return types.FunctionType(f.__code__, g, f.__name__, f.__defaults__, f.__closure__)
 
 
+_ALIAS_SOURCES = ("autograd.core", "autograd.tracer", "autograd.util", "autograd.wrap_util", "autograd.extend", "autograd.builtins", "autograd.differential_operators",
+                  "autograd.test_util", "autograd.numpy", "autograd.numpy.numpy_wrapper", "autograd.numpy.numpy_vspaces", "autograd.numpy.numpy_boxes")
+
+
+def _same_object_names(f, name):
+    """other global names of f's module bound to the SAME object the pinned tree imports as `name` (e.g. `from .core import make_vjp as _mv`): a stub for
+    `name` must replace those too - callee stubs go by what is called, not by the alias the module gives it"""
+    import sys
+    cands = []
+    for modname in _ALIAS_SOURCES:
+        m = sys.modules.get(modname)
+        if m is None:
+            continue
+        for nm in {name, name.lstrip("_")}:
+            if nm and hasattr(m, nm):
+                cands.append(getattr(m, nm))
+    out = []
+    cur = f.__globals__.get(name)
+    for k, v in f.__globals__.items():
+        if k != name and ((cur is not None and v is cur) or (cur is None and any(v is c for c in cands))) and not k.startswith("__"):
+            out.append(k)
+    return out
+
+
 def rebind_deep(f, **globs):
     """like rebind, but the plain functions of f's own module are copied into the SAME patched namespace, so that private helpers extracted from f
     (and helpers of helpers) see the contract stubs too.  Names given in `globs` win over the copies."""
@@ -39,6 +63,9 @@ def rebind_deep(f, **globs):
             g[nm] = types.FunctionType(obj.__code__, g, obj.__name__, obj.__defaults__, obj.__closure__)
             g[nm].__kwdefaults__ = obj.__kwdefaults__
     g.update(globs)
+    for nm, stub in globs.items():
+        for other in _same_object_names(f, nm):
+            g[other] = stub
     h = types.FunctionType(f.__code__, g, f.__name__, f.__defaults__, f.__closure__)
     h.__kwdefaults__ = f.__kwdefaults__
     return h
